@@ -16,7 +16,8 @@ LEVEL_TEXT = ("14 base statements of the four kinds the property names are token
               "pair of deviations over a reduced separator set is parsed by the real library and must equal the canonical result. "
               "Corpus scripts get 5 text-level transforms singly and pairwise."
               " Two scripts WITHOUT ';' terminators (statement starts stay at line starts) are laid out like the single statements."
-              ' Defect hunt: a PRIMARY KEY CLUSTERED list with sort directions (lower-case spellings are a known finding).')
+              ' Defect hunt: a PRIMARY KEY CLUSTERED list with sort directions (lower-case spellings are a known finding).'
+              ' Wave 6: glued punctuation + tabs everywhere else as one uniform layout (quick tier).')
 LEVEL_NOTE = ("Deviation bound 1 (quick) / 2 (thorough) plus uniform layouts; renderings that start a continuation line with a "
               "statement-level word are generated, counted and skipped (the property's proviso). The canonical rendering's own "
               "correctness is the subject of C01-C04/C17; here only a structural sanity check is applied to it.")
